@@ -1609,9 +1609,17 @@ func (d *DFA) getStartState(cache *DFACache, haystack []byte, pos int, anchored 
 	// This handles the case where another goroutine may have inserted it
 	insertedState, existed, err := cache.GetOrInsert(key, state)
 	if err != nil {
-		// Cache full - return the computed state anyway
-		// (it won't be cached, but search can continue)
-		return state
+		// Cache full. A state that is not in the cache has no ID and no row in
+		// the transition table, so it cannot be searched from: make room (within
+		// the clear budget) and insert again, or give up so that the caller
+		// falls back to the NFA.
+		if clearErr := d.tryClearCache(cache); clearErr != nil {
+			return nil
+		}
+		insertedState, existed, err = cache.GetOrInsert(key, state)
+		if err != nil {
+			return nil
+		}
 	}
 
 	// Register in ID lookup map (only if we inserted a new state)
@@ -2172,7 +2180,14 @@ func (d *DFA) getStartStateForReverse(cache *DFACache, haystack []byte, end int)
 
 	insertedState, existed, err := cache.GetOrInsert(key, state)
 	if err != nil {
-		return state
+		// See getStartState: an uncached state cannot be searched from.
+		if clearErr := d.tryClearCache(cache); clearErr != nil {
+			return nil
+		}
+		insertedState, existed, err = cache.GetOrInsert(key, state)
+		if err != nil {
+			return nil
+		}
 	}
 
 	if !existed {
